@@ -34,6 +34,7 @@ type feedOpts struct {
 	tokenSweepQ          int  // number of generated base documents for the token-level sweep (0 = skip); 14 fixed templates are always included
 	amplify              bool // one small element (every single-gap whitespace variant of 6 templates, and drawn ones) repeated > 10000 times in one container
 	strRuns              bool // strings made of N directly adjacent escapes of one kind (N in 0..140 and round powers of two) + a closer, as value and key
+	streams              bool // a complete first value (string-free or not, 3 sizes) followed by a tail that is not balanced by itself
 	counts               int  // count sites x counts round 2^8..2^16 (1) and also round 2^20 (2); 0 = skip
 	numShapes            int  // number tokens over a grid of (integer, fraction, exponent) digit counts; the value is the number of contexts (1..4), 0 = skip
 }
@@ -525,38 +526,6 @@ func (e *env) feed(o feedOpts, f inputFn) {
 		}
 	}
 
-	// 2b''. counts: every place where a scanner counts something (whitespace bytes, digits of
-	// each part of a number, string bytes, escapes, key bytes, members) with counts on both sides
-	// of 2^8, 2^9, 2^12, 2^16 and (countsBig) 2^20: a counter narrowed to 8 or 16 bits wraps, a
-	// "hardening" limit or a size-class switch sits at such a value
-	if o.counts > 0 && e.enumStage("counts", fmt.Sprintf("%d count sites (whitespace at 8 grammar positions, integer / fraction / exponent digits, plain / escaped / multi-byte string bytes, key bytes, array and object members, trailing whitespace) x counts {255..257, 511..513, 4095..4097, 65535..65537%s}", len(countKinds), map[bool]string{true: ", 2^20-1..2^20+1, 3*2^20 (thorough also 2^24+1)", false: ""}[o.counts > 1]), true) {
-		ns := append([]int(nil), countNs...)
-		if o.counts > 1 {
-			ns = append(ns, countNsBig...)
-			if cfg.Thorough() {
-				ns = append(ns, 1<<24+1)
-			}
-		}
-		idx := 0
-	counts:
-		for _, n := range ns {
-			for _, ck := range countKinds {
-				idx++
-				if !cfg.Mine(idx) {
-					continue
-				}
-				if n > 1<<20+1 && ck.heavy {
-					continue
-				}
-				b := ck.build(n)
-				if err := call("counts."+ck.name, b); err != nil {
-					report("counts."+ck.name, b, err)
-					break counts
-				}
-			}
-		}
-	}
-
 	// 2c. chunk boundaries: long well-formed documents (70 KB) are corrupted / truncated at
 	// positions round 2^k (k = 6..16), where chunked or block-wise scanners change regime
 	if o.boundaries {
@@ -741,6 +710,78 @@ func (e *env) feed(o feedOpts, f inputFn) {
 			}
 		})
 	}
+	// 2b3. streams: the input is a buffer that goes on after the first value - further records,
+	// a record that has only partly arrived, stray closers. Whatever looks at the whole buffer
+	// (bracket counts, "can this ever close", a search for the last closer) instead of the first
+	// value gets these wrong; sizes on both sides of 4 KiB and 64 KiB, with and without strings
+	if o.streams && e.enumStage("streams", "12 first values (string-free numeric arrays / nested arrays / empty containers / objects / scalars) x 3 sizes (small, > 4 KiB, > 64 KiB) x 22 tails (unmatched openers, partial next records, stray closers, 4000 openers, quotes)", true) {
+		firsts := [][3]string{ // {opening, repeated member, closing}
+			{"[1", ",2", "]"}, {"[[1]", ",[2,[3]]", "]"}, {"[", "", "]"}, {"{", "", "}"}, {"[-1.5e3", " , 0.25", " ]"},
+			{`{"a":1`, `,"b":[2]`, "}"}, {`["x"`, `,"y"`, "]"}, {"[{}", ",{}", "]"}, {"[[]", ",[[[]]]", "]"}, {"12", "", ""}, {"true", "", ""}, {`[{"k":{}}`, `,{"k":[{}]}`, "]"}}
+		opens := strings.Repeat("[", 4000)
+		tails := []string{"", " ", " [", "\n[1,2", "{", "]]]", "[[[[", "}", "\n[1,2,3]\n[4,", `"`, `"abc`, ` {"a":`, opens, " " + opens + "1", ",", ":", "\x00", "\n{\n", " [[1],[2", "]", "}}}}", ` {"a":[`}
+		idx := 0
+	streams:
+		for _, fv := range firsts {
+			for _, size := range []int{0, 4200, 66000} {
+				idx++
+				if !cfg.Mine(idx) {
+					continue
+				}
+				if fv[1] == "" && size > 0 {
+					continue
+				}
+				first := []byte(fv[0])
+				for len(first) < size {
+					first = append(first, fv[1]...)
+				}
+				if size == 0 && fv[1] != "" {
+					first = append(first, fv[1]...)
+				}
+				first = append(first, fv[2]...)
+				for _, tail := range tails {
+					b := append(append(make([]byte, 0, len(first)+len(tail)), first...), tail...)
+					if err := call("streams", b); err != nil {
+						report("streams", b, err)
+						break streams
+					}
+				}
+			}
+		}
+	}
+
+	// 2b''. counts: every place where a scanner counts something (whitespace bytes, digits of
+	// each part of a number, string bytes, escapes, key bytes, members) with counts on both sides
+	// of 2^8, 2^9, 2^12, 2^16 and (countsBig) 2^20: a counter narrowed to 8 or 16 bits wraps, a
+	// "hardening" limit or a size-class switch sits at such a value
+	if o.counts > 0 && e.enumStage("counts", fmt.Sprintf("%d count sites (whitespace at 8 grammar positions, integer / fraction / exponent digits, plain / escaped / multi-byte string bytes, key bytes, array and object members, trailing whitespace) x counts {255..257, 511..513, 4095..4097, 65535..65537%s}", len(countKinds), map[bool]string{true: ", 2^20-1..2^20+1, 3*2^20 (thorough also 2^24+1)", false: ""}[o.counts > 1]), true) {
+		ns := append([]int(nil), countNs...)
+		if o.counts > 1 {
+			ns = append(ns, countNsBig...)
+			if cfg.Thorough() {
+				ns = append(ns, 1<<24+1)
+			}
+		}
+		idx := 0
+	counts:
+		for _, n := range ns {
+			for _, ck := range countKinds {
+				idx++
+				if !cfg.Mine(idx) {
+					continue
+				}
+				if n > 1<<20+1 && ck.heavy {
+					continue
+				}
+				b := ck.build(n)
+				if err := call("counts."+ck.name, b); err != nil {
+					report("counts."+ck.name, b, err)
+					break counts
+				}
+			}
+		}
+	}
+
 }
 
 // caseErr lets an inputFn attach a richer concrete case (e.g. with a buffer history) to
